@@ -316,7 +316,9 @@ VF_SUB(group_roundtrip, 2400, 40000) {
       build = [=](const std::string &t, std::string &out, ZV &f) { std::istringstream in(t); BarnettSmartVTMF_dlog_GroupQR v(in, FS, E); std::ostringstream o; v.PublishGroup(o); out = o.str(); zs(f, v.p); zs(f, v.q); zs(f, v.g); zs(f, v.k); };
       break; }
     case 3: case 4: case 5: { nm = which == 3 ? "PedersenCommitmentScheme" : which == 4 ? "GrothSKC" : "GrothVSSHE";
-      size_t a = ctx.c.weighted({2, 1, 6}); size_t n = a == 0 ? 1 : a == 1 ? (size_t)(ctx.thorough ? TMCG_MAX_CARDS : 64) : (size_t)ctx.c.small(1, 40); bdim = a < 2;
+      size_t a = ctx.c.weighted({2, 2, 6}); // boundary dimensions: 1, the table limit TMCG_MAX_FPOWM_N (generators beyond it are kept without a precomputed table) and its neighbours, the largest stack size
+      static const size_t big_n[] = {64, TMCG_MAX_FPOWM_N - 1, TMCG_MAX_FPOWM_N, TMCG_MAX_FPOWM_N + 1, TMCG_MAX_FPOWM_N + 44, TMCG_MAX_CARDS};
+      size_t n = a == 0 ? 1 : a == 1 ? big_n[ctx.c.index(ctx.thorough ? 6 : 5)] : (size_t)ctx.c.small(1, 40); bdim = a < 2;
       GroupGen g = gen_pq(ctx, vg, false); extra = "n=" + std::to_string(n) + " " + g.mode; Z k = vg.any(), h = vg.any(), gv = vg.any(), hv = vg.any(); ZV gen; for (size_t i = 0; i < n; i++) gen.push_back(vg.any());
       if (which == 5) { put(t0, g.p); put(t0, g.q); put(t0, gv); put(t0, hv); expect = {g.p, g.q, gv, hv}; }
       put(t0, g.p); put(t0, g.q); put(t0, k); put(t0, h); for (auto &x : gen) put(t0, x); exp_text = t0;
